@@ -248,6 +248,10 @@ def encode_case(c, rng):
         if rng.random() < 0.4:
             f["variadic"] = True
         rs = f.get("results") or []
+        if not rs and rng.random() < 0.5:
+            # nothing provided, written as an empty result object (same verdict: rejected)
+            f["results"] = [dict(k="obj", fields=[])]
+            continue
         if rs and all(r["k"] != "obj" for r in rs) and not any(r.get("as") and r["k"] == "group" for r in rs) and rng.random() < 0.7:
             # positional results (sharing name/group through options) -> one result object with tags
             f["results"] = [dict(k="obj", fields=rs)]
